@@ -918,3 +918,7 @@ func specIntCode(v int64) byte {
 	}
 	return 0x20
 }
+
+// A symbol table's answer for a text, as its (pure) observer reports it.
+func specFindID(t SymbolTable, s string) uint64 { id, _ := t.FindByName(s); return id }
+func specFindOK(t SymbolTable, s string) bool   { _, ok := t.FindByName(s); return ok }
